@@ -35,7 +35,12 @@ def cases_for(graph, paths, sn, cn, lw, rnd, all_combos):
         waited = json.loads(edges[-1][2])[IDX["waited"]]
         combos = [(s, c) for s in SERVERS[sn] for c in CLIENTS[cn]]
         if not all_combos:
-            combos = [rnd.choice(combos)]
+            forced = [c for c in combos if c[0] == "socks5" and c[1] in ("direct", "directtfo")]
+            if dial not in ("ok", "rejected") and forced and rnd.random() < 0.6:
+                # the pairing in which the failure reply carries the dial result code end to end
+                combos = [rnd.choice(forced)]
+            else:
+                combos = [rnd.choice(combos)]
         for (srv, cli) in combos:
             if srv == "direct" and dial in ("dns",):
                 continue
